@@ -19,14 +19,14 @@ use crate::c19::*;
 /// logic.
 
 #[test]
-fn kani_concrete_playback_c19_range_i64_forward_16463372022976294981() {
+fn kani_concrete_playback_c19_range_i64_forward_4250847325301770672() {
     let concrete_vals: Vec<Vec<u8>> = vec![
-        // 9
-        vec![9, 0, 0, 0, 0, 0, 0, 0],
-        // -5
-        vec![251, 255, 255, 255, 255, 255, 255, 255],
-        // -5
-        vec![251, 255, 255, 255, 255, 255, 255, 255],
+        // 3
+        vec![3, 0, 0, 0, 0, 0, 0, 0],
+        // 0
+        vec![0, 0, 0, 0, 0, 0, 0, 0],
+        // -8
+        vec![248, 255, 255, 255, 255, 255, 255, 255],
     ];
     kani::concrete_playback_run(concrete_vals, c19_range_i64_forward);
 }
@@ -47,14 +47,14 @@ fn kani_concrete_playback_c19_range_i64_forward_16463372022976294981() {
 /// logic.
 
 #[test]
-fn kani_concrete_playback_c19_range_i64_forward_5298363495181704494() {
+fn kani_concrete_playback_c19_range_i64_forward_12983786029419138231() {
     let concrete_vals: Vec<Vec<u8>> = vec![
         // 0
         vec![0, 0, 0, 0, 0, 0, 0, 0],
-        // 16
-        vec![16, 0, 0, 0, 0, 0, 0, 0],
-        // 8
-        vec![8, 0, 0, 0, 0, 0, 0, 0],
+        // -20
+        vec![236, 255, 255, 255, 255, 255, 255, 255],
+        // -5
+        vec![251, 255, 255, 255, 255, 255, 255, 255],
     ];
     kani::concrete_playback_run(concrete_vals, c19_range_i64_forward);
 }
@@ -75,42 +75,14 @@ fn kani_concrete_playback_c19_range_i64_forward_5298363495181704494() {
 /// logic.
 
 #[test]
-fn kani_concrete_playback_c19_range_i64_forward_12501639211898344700() {
-    let concrete_vals: Vec<Vec<u8>> = vec![
-        // -18
-        vec![238, 255, 255, 255, 255, 255, 255, 255],
-        // -18
-        vec![238, 255, 255, 255, 255, 255, 255, 255],
-        // -20
-        vec![236, 255, 255, 255, 255, 255, 255, 255],
-    ];
-    kani::concrete_playback_run(concrete_vals, c19_range_i64_forward);
-}
-
-/// Test generated for harness `c19::c19_range_i64_forward` 
-///
-/// Check for `cover`: "negative step"
-///
-/// # Warning
-///
-/// Concrete playback tests combined with stubs or contracts is highly
-/// experimental, and subject to change.
-///
-/// The original harness has stubs which are not applied to this test.
-/// This may cause a mismatch of non-deterministic values if the stub
-/// creates any non-deterministic value.
-/// The execution path may also differ, which can be used to refine the stub
-/// logic.
-
-#[test]
-fn kani_concrete_playback_c19_range_i64_forward_14801424652450213075() {
+fn kani_concrete_playback_c19_range_i64_forward_15506382447154921702() {
     let concrete_vals: Vec<Vec<u8>> = vec![
         // 0
         vec![0, 0, 0, 0, 0, 0, 0, 0],
-        // -6
-        vec![250, 255, 255, 255, 255, 255, 255, 255],
-        // -1
-        vec![255, 255, 255, 255, 255, 255, 255, 255],
+        // 0
+        vec![0, 0, 0, 0, 0, 0, 0, 0],
+        // -16
+        vec![240, 255, 255, 255, 255, 255, 255, 255],
     ];
     kani::concrete_playback_run(concrete_vals, c19_range_i64_forward);
 }
